@@ -390,6 +390,10 @@ func (st *State) enter(b *ssa.BasicBlock, pred *ssa.BasicBlock) {
 		}
 		decs := vc.loopClauses(lkey, li.ord, "loop-decreases")
 		if isBack {
+			if vc.loopFeas == nil {
+				vc.loopFeas = map[string][]*Line{}
+			}
+			vc.loopFeas[lname] = append(vc.loopFeas[lname], st.lines)
 			for _, c := range decs {
 				e, _ := c.expr()
 				ec := st.evalCtx()
@@ -860,6 +864,9 @@ func (st *State) step(in ssa.Instruction) {
 	case *ssa.Store:
 		av := st.value(x.Addr)
 		p := st.asPtr(av, x.Addr.Type())
+		if p.Kind == "elem" && st.nonnil["view:"+p.Base.S] {
+			fail("store through a slice that does not start at offset 0 of its backing array (modelled as a read-only view)")
+		}
 		if tv, ok := av.(TV); ok {
 			st.nilCheck(tv.T, fmt.Sprintf("store#%d", vc.ordinals[in]), "*"+x.Addr.Name())
 		}
@@ -1191,6 +1198,27 @@ func (st *State) sliceOp(x *ssa.Slice) {
 		mx = st.value(x.Max).(TV).T
 	}
 	st.oblige("bounds", fmt.Sprintf("slice#%d", vc.ordinals[x]), tAnd(tLe(tInt(0), lo), tLe(lo, hi), tLe(hi, mx), tLe(mx, sv.Cap)), "slice bounds in range")
+	if lo.S != "0" || sv.Off.S != "0" {
+		// a slice that does not start at offset 0 of its backing array is modelled as a read-only view: a fresh array whose elements
+		// equal the shifted elements of the original (stores through it are outside the modelled subset)
+		el := sliceElem(sv.Typ)
+		narr := st.allocRef("view")
+		nlen := st.define("len", tSub(hi, lo))
+		ncap := st.define("cap", tSub(mx, lo))
+		shift := offIdx(st, sv.Off, lo)
+		p := PtrV{Kind: "elem", Root: typeRepr(el), Base: narr, Idx: tInt(0), Elem: el}
+		for _, lf := range leavesOf(el, "") {
+			key, _ := st.leafSortKey(p, lf)
+			a := st.get(key)
+			src := st.define("srcin", tSelect(a, sv.Arr))
+			ni := st.declare("viewin", arrSort(SInt, lf.sort))
+			st.addLine(fmt.Sprintf("(assert (forall ((i Int)) (! (=> (and (<= 0 i) (< i %s)) (= (select %s i) (select %s (+ %s i)))) :pattern ((select %s i)))))", ncap.S, ni.S, src.S, shift.S, ni.S))
+			st.set(key, tStore(a, narr, ni))
+		}
+		st.nonnil["view:"+narr.S] = true
+		st.bind(x, SliceV{Arr: narr, Off: tInt(0), Len: nlen, Cap: ncap, Typ: x.Type()})
+		return
+	}
 	nv := SliceV{Arr: sv.Arr, Off: offIdx(st, sv.Off, lo), Len: st.define("len", tSub(hi, lo)), Cap: st.define("cap", tSub(mx, lo)), Typ: x.Type()}
 	st.bind(x, nv)
 }
